@@ -1,5 +1,5 @@
-"""C11: atan odd and within 5e-5; atan2 axis values, quadrant signs, and within 8e-5 by composition (decided).
-|atan| <= pi/2 and near-monotonicity are not decided."""
+"""C11: atan odd, within 5e-5 and within [-fixpidiv2, fixpidiv2]; atan2 axis values, quadrant signs, and within 8e-5 by composition
+(decided). Near-monotonicity is not decided."""
 from . import common, lib
 from .lib import M, FIN, E, sym
 from .c09 import const_of
@@ -11,6 +11,7 @@ EXTRA = [
     E("w_phi", [], "fx", "return phi.v;"),
     E("w_pidiv2", [], "fx", "return fixpidiv2.v;"),
     E("w_negatanneg", ["fx"], "fx", "return (-atan(-as_fixed(a))).v;"),
+    E("w_atanser", ["fx"], "fx", "return detail::atan<16>(a);"),
 ]
 
 
@@ -19,7 +20,7 @@ def run(tier, seed):
     configs = ["K17", "K20"]
     for cfg in configs:
         try:
-            ctx = lib.Ctx(cfg, EXTRA, only={"w_atan", "w_atan2", "w_phi", "w_pidiv2", "w_negatanneg"})
+            ctx = lib.Ctx(cfg, EXTRA, only={"w_atan", "w_atan2", "w_phi", "w_pidiv2", "w_negatanneg", "w_atanser"})
             phi = const_of(ctx, "w_phi")
             pd2 = const_of(ctx, "w_pidiv2")
             # oddness on the property's domain
@@ -42,6 +43,7 @@ def run(tier, seed):
                 tot = Fraction(5, 100000) * 65536 + 1 + dphi
                 V.oblige(tot <= Fraction(8, 100000) * 65536)
                 V.cover.setdefault("atan2_composition", {})[cfg] = {"paths": ncomp, "budget_raw_units": float(tot), "allowed": 8e-5 * 65536}
+            atan_range(V, ctx, cfg, pd2)
             # atan2(y, x): parameter 0 is y, parameter 1 is x
             y, x = sym(0), sym(1)
             boxes = [
@@ -86,8 +88,11 @@ def run(tier, seed):
             "atan(2^24) and pi/2. atan2: x == 0 gives exactly +-fixpidiv2, (0,0) NaN, y == 0 gives 0 / phi; in every open quadrant the result "
             "has the sign of y; every path with x != 0 returns atan_lib(q) + c with q the value-numbered truncated quotient 65536*y/x and c in "
             "{0, +phi, -phi} by quadrant (abstract re-execution of atan on the quotient symbol), hence |atan2_lib - angle| <= 5e-5*65536 + 1 "
-            "(truncation of q, atan is 1-Lipschitz) + |phi - 65536 pi| < 8e-5*65536. NOT DECIDED: |atan| <= pi/2 (the proved enclosure allows "
-            "up to pi/2 + 5e-5) and x <= y => atan x <= atan y + 2 ulp.")
+            "(truncation of q, atan is 1-Lipschitz) + |phi - 65536 pi| < 8e-5*65536. |atan(x)| <= fixpidiv2: every non-constant path returns "
+            "atanc + S(q) with S the series detail::atan<16> (abstract re-execution on the quotient symbol), 0 <= q <= Q from the linear forms of "
+            "numerator and denominator (N - (Q+1) D < 0 over the path state), and atanc + S(t) lies in [0, fixpidiv2] for every integer t <= Q "
+            "(interval evaluation on bisected cells of t, down to constant propagation); negative x by oddness. NOT DECIDED: x <= y => "
+            "atan x <= atan y + 2 ulp.")
     return V.finish("other", expl, "./fx check C11 --tier %s" % tier, extra={"configs": configs})
 
 
@@ -141,7 +146,16 @@ def atan_accuracy(V, ctx, cfg, pd2, fine=False):
                             lib.rp(r, (lo,), "atan accuracy"))
         else:
             work_box_hi = max(work_box_hi, hi)
-    fails, info = fxnum.prove_cells(V, r, atan_truth, bound, "atan accuracy 5e-5", "atan", box=(0, work_box_hi), adapt=adapt, min_cells=2000)
+    acc = [None, None]
+    fails, info = fxnum.prove_cells(V, r, atan_truth, bound, "atan accuracy 5e-5", "atan", box=(0, work_box_hi), adapt=adapt, min_cells=2000, rng_acc=acc)
+    info["result_enclosure"] = [float(acc[0]), float(acc[1])] if acc[0] is not None else None
+    info["pi_half_constant"] = pd2
+    # |atan(x)| never exceeds the library's pi/2 constant: decided when the enclosure of all cells stays below it
+    if acc[1] is not None and acc[1] <= pd2 and all(c[2] <= pd2 for c in consts):
+        V.oblige(True)
+        info["atan_le_pidiv2"] = "proved"
+    else:
+        info["atan_le_pidiv2"] = "not decided (enclosure reaches %.3f, constant %d)" % (float(acc[1]) if acc[1] is not None else -1, pd2)
     fxnum.triage_fails(V, r, fails, point_ok, "|atan(x) - atan x| <= 5e-5", "atan")
     info["constant_tail"] = [[c[0], c[1], c[2]] for c in consts]
     return info
@@ -214,3 +228,146 @@ def atan2_composition(V, ctx, cfg, phi):
                 else:
                     V.inconc("w_atan2 [%s] region %s: %s on path %s" % (cfg, nm, why, lib.describe_path(p)))
     return n
+
+
+# ------------------------------------------------------------------ |atan(x)| <= fixpidiv2
+def atan_range(V, ctx, cfg, pd2):
+    """0 <= atan(x) <= fixpidiv2 for every x >= 0 (x < 0 follows from the proved oddness):
+    (1) every non-constant path returns atanc + S(q) with S = detail::atan<16> (the series) and q either x itself or the
+        quotient symbol div_(x - c, 1 + x*c) of the path: decided by abstract re-execution of S on q;
+    (2) 0 <= q <= Q on the path: N - (Q+1)*D < 0 and N >= 0 over the path state (N, D the linear forms of numerator and denominator);
+    (3) atanc + S(t) in [0, fixpidiv2] for every integer t in [0, Q]: interval evaluation of S on cells of t, bisected down to
+        single values (constant propagation) where the interval is not enough."""
+    from fxai.lin import Lin
+    from fxai import pipeline as P
+    from fxai.state import Infeasible
+    TOP = (1 << 63) - 2
+    r = ctx.run("w_atan", [("i", 0, TOP)])
+    rs0 = ctx.run("w_atanser", [("i", 0, 1 << 20)])
+    info = {"segments": []}
+    cache = {}
+
+    def series_rng(a, b):
+        """engine range of S over t in [a, b]; None if an alarm is raised"""
+        if (a, b) not in cache:
+            rr = ctx.run("w_atanser", [("i", a, b)])
+            if rr.alarms or not rr.paths:
+                cache[(a, b)] = None
+            else:
+                rg = [lib.ret_rng(z) for z in rr.paths]
+                cache[(a, b)] = (min(g[0] for g in rg), max(g[1] for g in rg))
+        return cache[(a, b)]
+    if len(r.paths) < 5:
+        V.broke("atan range (%s): only %d paths of w_atan" % (cfg, len(r.paths)))
+    for p in r.paths:
+        st = p.state
+        lo, hi = st.bounds["p0"]
+        rl, rh = lib.ret_rng(p)
+        if rl == rh:
+            ok = 0 <= rl <= pd2
+            V.oblige(ok)
+            info["segments"].append({"x": [lo, hi], "constant": rl})
+            if not ok:
+                V.violation("|atan(x)| <= fixpidiv2", "atan", "atan is the constant %d on [%d,%d], above fixpidiv2 = %d" % (rl, lo, hi, pd2),
+                            lib.rp(r, (lo,), "atan range"))
+            continue
+        q = None
+        N = Dn = None
+        for s_ in st.bounds:
+            d = r.an.symdef.get(s_)
+            if d is not None and d[0] == "div":
+                q, N, Dn = Lin.sym(s_), d[1], d[2]
+        if q is None:
+            q = sym(0)
+            Q = hi
+            qlo_ok = lo >= 0
+        else:
+            # (2) bound the quotient from the linear forms of numerator and denominator
+            dl, dh = st.rng_lin_int(Dn)
+            nl, nh = st.rng_lin_int(N)
+            qlo_ok = dl > 0 and nl >= 0
+            Q = None
+            if dl > 0:
+                a, b = 0, 1 << 40
+                if st.rng_lin_int(N.sub(Dn.scale(b + 1)))[1] < 0:
+                    while a < b:
+                        m = (a + b) // 2
+                        if st.rng_lin_int(N.sub(Dn.scale(m + 1)))[1] < 0:
+                            b = m
+                        else:
+                            a = m + 1
+                    Q = a
+        seg = {"x": [lo, hi], "q_max": Q}
+        info["segments"].append(seg)
+        if Q is None or not qlo_ok:
+            V.oblige(False)
+            V.inconc("atan range [%s]: quotient of the segment x in [%d,%d] not bounded" % (cfg, lo, hi))
+            continue
+        # (1) ret == atanc + S(q)
+        ok = False
+        why = ""
+        atanc = None
+        try:
+            st2 = st.fork()
+            init = P.init_state_from(rs0.an.fn, st2, {0: q})
+            res = rs0.an.run(init)
+            ok = bool(res.paths) and not res.alarms
+            for z in res.paths:
+                s2 = lib.join_states(st, z.state)
+                if s2 is None:
+                    continue
+                l2, h2 = s2.rng_lin_int(p.ret.lin.sub(z.ret.lin))
+                if l2 != h2 or (atanc is not None and atanc != l2):
+                    ok = False
+                    why = "atan(x) - series(q) ranges over [%s,%s]" % (l2, h2)
+                    break
+                atanc = l2
+            if res.alarms:
+                why = "series re-execution raises %s" % res.alarms[0].kind
+        except (Broken, Infeasible) as e:
+            why = "re-execution of the series on the quotient failed: %s" % e
+        V.oblige(ok)
+        if not ok or atanc is None:
+            V.inconc("atan range [%s]: segment x in [%d,%d] is not constant + series(q): %s" % (cfg, lo, hi, why))
+            continue
+        seg["atanc"] = atanc
+        # (3) atanc + S(t) within [0, pd2] for t in [0, Q]
+        work = [(0, Q)]
+        ncell = nsingle = 0
+        top = None
+        bad = None
+        while work:
+            a, b = work.pop()
+            g = series_rng(a, b)
+            ncell += 1
+            if g is not None and 0 <= atanc + g[0] and atanc + g[1] <= pd2:
+                top = atanc + g[1] if top is None else max(top, atanc + g[1])
+                continue
+            if a == b:
+                nsingle += 1
+                bad = (a, g)
+                break
+            m = (a + b) // 2
+            work.append((a, m))
+            work.append((m + 1, b))
+            if ncell > 60000:
+                bad = (a, "budget")
+                break
+        seg.update({"cells": ncell, "max_result_bound": top})
+        V.oblige(bad is None)
+        if bad is not None:
+            t = bad[0]
+            # a concrete x of this segment whose quotient is t: search the segment
+            import random
+
+            def isbad(args, o):
+                return o[0] == "ret" and not (0 <= o[1] <= pd2)
+            args, out = lib.search(r, st, isbad, random.Random(V.seed))
+            if args is not None:
+                V.violation("|atan(x)| <= fixpidiv2", "atan", "atan(%d) [%s] %s, outside [0, fixpidiv2 = %d]" % (args[0], cfg, lib.out_str(out), pd2),
+                            lib.rp(r, args, "atan range"))
+            else:
+                V.inconc("atan range [%s]: segment x in [%d,%d]: %d + series(%d) = %s not shown within [0,%d] and no input found" % (
+                    cfg, lo, hi, atanc, t, bad[1], pd2))
+    V.cover.setdefault("atan_range", {})[cfg] = info
+    return info
